@@ -33,7 +33,10 @@ var int32Pool = []int64{0, 1, -1, 2, 127, 128, -128, -129, 255, 256, 16383, 1638
 var int64Pool = []int64{0, 1, -1, 2, 127, 128, -128, math.MaxInt32, math.MinInt32, 1 << 31, -(1 << 31) - 1, 1 << 32, -(1 << 32), math.MaxInt64, math.MinInt64, math.MaxInt64 - 1, math.MinInt64 + 1, 1 << 62, -(1 << 62), 1<<56 - 1}
 var uint32Pool = []uint64{0, 1, 2, 127, 128, 255, 256, 16384, 1<<31 - 1, 1 << 31, 1<<31 + 1, math.MaxUint32, math.MaxUint32 - 1, 65535, 65536}
 var uint64Pool = []uint64{0, 1, 2, 127, 128, 1<<31 - 1, 1 << 31, math.MaxUint32, 1 << 32, 1<<63 - 1, 1 << 63, 1<<63 + 1, math.MaxUint64, math.MaxUint64 - 1, 1 << 62}
-var stringPool = []string{"", "a", "b", "aa", "ab", "ba", "A", "B", "a\x00", "a\x00b", "é", "é", "z", "10", "9", "09", "abcdefgh", "abcdefgi", "abcdefg", "abcdefghi", "key", "Key", "kez", "ÿ", "\U0001F600", " ", "a b", "~", "\x7f", "0"}
+var stringPool = []string{"", "a", "b", "aa", "ab", "ba", "A", "B", "a\x00", "a\x00b", "é", "é", "z", "10", "9", "09", "abcdefgh", "abcdefgi", "abcdefg", "abcdefghi", "key", "Key", "kez", "ÿ", "\U0001F600", " ", "a b", "~", "\x7f", "0",
+	// equal-length keys sharing a long prefix (8, 16, 32 bytes): comparators that look at a prefix, a hash or a packed word only
+	"validator/00", "validator/01", "validator/10", "abcdefgh1", "abcdefgh2", "0123456789abcdefX", "0123456789abcdefY",
+	"0123456789abcdef0123456789abcdef-a", "0123456789abcdef0123456789abcdef-b"}
 var f64Pool = []uint64{0, 0x8000000000000000, 0x3ff0000000000000, 0xbff0000000000000, 0x7ff0000000000000, 0xfff0000000000000, 0x7ff8000000000000, 0x7ff8000000000001, 0xfff8000000000000, 0x0000000000000001, 0x7fefffffffffffff, 0x400921fb54442d18}
 var f32Pool = []uint32{0, 0x80000000, 0x3f800000, 0xbf800000, 0x7f800000, 0xff800000, 0x7fc00000, 0x7fc00001, 0xffc00000, 0x00000001, 0x7f7fffff, 0x40490fdb}
 
